@@ -1,0 +1,101 @@
+//! Verification hooks. Only compiled with the `verif-hooks` cargo feature (off by default).
+//!
+//! The hooks only *count* events on the current thread (which loop iterated, which solver
+//! routing was taken, how many optimizer steps ran). They never change a value the library
+//! computes. The single exception to "only count" is the iteration budget: once a site has
+//! ticked more often than the budget since the last `reset`, `tick` panics with a
+//! recognisable message so that a monitor can turn a non-terminating loop into a finite
+//! observation.
+
+use std::cell::Cell;
+
+macro_rules! sites {
+    ($($name:ident = $label:expr),+ $(,)?) => {
+        #[allow(non_camel_case_types)]
+        #[derive(Debug, Clone, Copy, PartialEq, Eq)]
+        #[repr(usize)]
+        pub enum Site { $($name),+ }
+        pub const LABELS: &[&str] = &[$($label),+];
+    };
+}
+
+sites! {
+    NormalZig = "normal.zig",
+    NormalZigTail = "normal.zig.tail",
+    NormalZigWedge = "normal.zig.wedge",
+    GammaOuter = "gamma.outer",
+    GammaInner = "gamma.inner",
+    GammaSqueeze = "gamma.squeeze",
+    GammaLog = "gamma.log",
+    PoissonMult = "poisson.mult",
+    PoissonPtrs = "poisson.ptrs",
+    PoissonPtrsFast = "poisson.ptrs.fast",
+    PoissonPtrsSlow = "poisson.ptrs.slow",
+    BinomialInv = "binomial.inv",
+    BinomialInvCall = "binomial.inv.call",
+    BinomialFlip = "binomial.flip",
+    BinomialBtpe = "binomial.btpe",
+    BinomialBtpeCall = "binomial.btpe.call",
+    Btpe1 = "btpe.1",
+    Btpe2 = "btpe.2",
+    Btpe3 = "btpe.3",
+    Btpe4 = "btpe.4",
+    Btpe51 = "btpe.5.1",
+    Btpe51Loop = "btpe.5.1.loop",
+    Btpe52 = "btpe.5.2",
+    Btpe53 = "btpe.5.3",
+    SolveChol = "solve.chol",
+    SolveLu = "solve.lu",
+    SolveSysChol = "solve_sys.chol",
+    SolveSysLu = "solve_sys.lu",
+    GlmIter = "glm.iter",
+    AdamStep = "adam.step",
+    SgdStep = "sgd.step",
+    LmStep = "lm.step",
+    LmAccept = "lm.accept",
+    LmReject = "lm.reject",
+}
+
+const N: usize = LABELS.len();
+
+thread_local! {
+    static COUNTS: [Cell<u64>; N] = [const { Cell::new(0) }; N];
+    static BUDGET: Cell<u64> = const { Cell::new(u64::MAX) };
+}
+
+/// Message prefix of the panic raised when a site exceeds the iteration budget.
+pub const BUDGET_PANIC: &str = "verif-hooks: iteration budget exceeded at ";
+
+/// Record one event at `site` on the current thread.
+#[inline]
+pub fn tick(site: Site) {
+    let over = COUNTS.with(|c| {
+        let cell = &c[site as usize];
+        let v = cell.get().wrapping_add(1);
+        cell.set(v);
+        v > BUDGET.with(|b| b.get())
+    });
+    if over {
+        panic!("{}{}", BUDGET_PANIC, LABELS[site as usize]);
+    }
+}
+
+/// Zero all counters of the current thread.
+pub fn reset() {
+    COUNTS.with(|c| c.iter().for_each(|x| x.set(0)));
+}
+
+/// Set the per-site iteration budget of the current thread (`u64::MAX` = unlimited).
+pub fn set_budget(budget: u64) {
+    BUDGET.with(|b| b.set(budget));
+}
+
+/// Current count of `site` on this thread.
+pub fn count(site: Site) -> u64 {
+    COUNTS.with(|c| c[site as usize].get())
+}
+
+/// All (label, count) pairs of this thread.
+pub fn snapshot() -> Vec<(&'static str, u64)> {
+    COUNTS.with(|c| LABELS.iter().copied().zip(c.iter().map(|x| x.get())).collect())
+}
